@@ -17,7 +17,9 @@ def worker_dir(w):
     if not os.path.isdir(wd + "/repo"):
         os.makedirs(wd, exist_ok=True)
         rc, out = sh("git -C /repo worktree add -q --detach %s/repo HEAD" % wd); assert rc == 0, out
-    sh("git checkout -q -- . && git clean -fdq", wd + "/repo")
+    # the scratch worktree follows /repo's HEAD
+    rc, head = sh("git -C /repo rev-parse HEAD")
+    sh("git checkout -q -- . && git clean -fdq && git checkout -q --detach %s" % head.strip(), wd + "/repo")
     # private copy of the Lean project (sources refreshed every time, build output kept)
     os.makedirs(wd + "/lean", exist_ok=True)
     sh("rsync -a --delete --exclude .lake %s/lean/ %s/lean/" % (ROOT, wd))
